@@ -100,7 +100,7 @@ def _ordered(edges, rev):
     return es[::-1] if rev else es
 
 
-def create(F, kind, shape, label, rev=False):
+def create(F, kind, shape, label, rev=False, reuse=False):
     """Call the public constructor of the group.  label=None -> the default
     label of the method.  Returns the group (the identifier for 'variable')."""
     from cnfgen.graphs import Graph, DirectedGraph, BipartiteGraph
@@ -126,6 +126,21 @@ def create(F, kind, shape, label, rev=False):
         return F.new_sparse_mapping(B, **kw)
     if kind == 'mapping':
         return F.new_mapping(shape[0], shape[1], **kw)
+    if kind == 'graph_edges' and reuse:
+        # a graph object with a past: it served a group of ANOTHER formula
+        # while it had other edges (as many), then was rewired in place
+        n_ = shape[0]
+        want = {(min(u, v), max(u, v)) for (u, v) in shape[1]}
+        rot = {tuple(sorted((u % n_ + 1, v % n_ + 1))) for (u, v) in want}
+        G = Graph(n_)
+        for (u, v) in sorted(rot):
+            G.add_edge(u, v)
+        type(F)().new_graph_edges(G)
+        for (u, v) in sorted(rot - want):
+            G.remove_edge(u, v)
+        for (u, v) in sorted(want - rot):
+            G.add_edge(u, v)
+        return F.new_graph_edges(G, **kw)
     if kind == 'graph_edges':
         G = Graph(shape[0])
         for u, v in _ordered(shape[1], rev):
@@ -525,7 +540,7 @@ def check_A(case, stats=None):
     if kind == 'variable':
         label = shape                # 'X' or None
     try:
-        g = create(F, kind, shape, label, rev)
+        g = create(F, kind, shape, label, rev, reuse=bool(case.get('reuse')))
     except ValueError as e:
         if kind == 'binary_mapping' and (shape[0] < 1 or shape[1] < 1):
             if stats is not None:
@@ -723,6 +738,10 @@ def cases_A(tier, seed):
                     if graphlike:
                         c['rev'] = ci % 2
                     cases.append(c)
+                    if kind == 'graph_edges' and ctx == 'fresh' and lab == 'custom' and shape[1]:
+                        c2 = dict(c)
+                        c2['reuse'] = True
+                        cases.append(c2)
     return cases
 
 
